@@ -514,3 +514,102 @@ Example multi_seat_operator :
   /\ admission (fun k => k) GjkrEphemeralKey x {| m_idx := 5; m_key := 40; m_pay := PPlain 7 |} = Stored
   /\ admission (fun k => k) GjkrEphemeralKey x {| m_idx := 5; m_key := 40; m_pay := PPlain 8 |} = Ignored.
 Proof. vm_compute. repeat split; reflexivity. Qed.
+
+(* ---------- admission after the production result pipeline, on one group object ---------- *)
+Lemma pipe_run_group : forall steps g, fst (pipe_run g steps) = g.
+Proof.
+  induction steps as [|s t IH]; intro g; simpl; [reflexivity|].
+  specialize (IH g). destruct (pipe_run g t) as [g2 os]. simpl in *. exact IH.
+Qed.
+
+(* history = map: what a read-only step returns depends on the group alone *)
+Lemma pipe_run_outputs : forall steps g, snd (pipe_run g steps) = map (fun s => snd (pstep_run s g)) steps.
+Proof.
+  induction steps as [|s t IH]; intro g; simpl; [reflexivity|].
+  specialize (IH g). destruct (pipe_run g t) as [g2 os]. simpl in *. rewrite IH. reflexivity.
+Qed.
+
+Lemma memN_app : forall x a b, memN x (a ++ b) = memN x a || memN x b.
+Proof. intros. unfold memN. apply existsb_app. Qed.
+
+Lemma apply_mark_monotone : forall g m i, is_operating g i = false -> is_operating (apply_mark g m) i = false.
+Proof.
+  intros g [d j] i H. unfold apply_mark, mark_disqualified, mark_inactive. simpl.
+  destruct d; destruct (is_operating g j); try exact H; unfold is_operating in *; simpl;
+  rewrite memN_app; rewrite !andb_false_iff in *; rewrite !negb_false_iff in *;
+  destruct H as [[H|H]|H]; auto; [right|left; right]; rewrite H; reflexivity.
+Qed.
+
+Lemma apply_mark_excludes : forall g d i, is_operating (apply_mark g (d, i)) i = false.
+Proof.
+  intros g d i. unfold apply_mark, mark_disqualified, mark_inactive. simpl.
+  destruct d; destruct (is_operating g i) eqn:E; try exact E; unfold is_operating; simpl;
+  rewrite memN_app; unfold memN at 2 3; simpl; rewrite N.eqb_refl; simpl;
+  rewrite ?orb_true_r; simpl; rewrite ?andb_false_r; reflexivity.
+Qed.
+
+Lemma marks_exclude : forall marks g i,
+  is_operating g i = false \/ In i (map snd marks) ->
+  is_operating (fold_left apply_mark marks g) i = false.
+Proof.
+  induction marks as [|m t IH]; intros g i H; simpl.
+  - destruct H as [H|[]]. exact H.
+  - apply IH. destruct H as [H|[H|H]].
+    + left. apply apply_mark_monotone. exact H.
+    + left. destruct m as [d j]. simpl in H. subst j. apply apply_mark_excludes.
+    + right. exact H.
+Qed.
+
+Lemma marked_member_excluded : forall size marks d i,
+  In (d, i) marks -> is_operating (apply_marks size marks) i = false.
+Proof.
+  intros size marks d i H. unfold apply_marks. apply marks_exclude. right.
+  apply in_map_iff. exists (d, i). split; [reflexivity|exact H].
+Qed.
+
+(* a member excluded by a mark stays excluded through every read-only pipeline, and its message is
+   not acted on by any shouldAcceptMessage step whose group is that object *)
+Lemma pipe_excluded_never_admitted : forall (addr_of : N -> N) s x m size marks steps,
+  match kind_of s with KPlain | KKeyed => True | _ => False end ->
+  x_grp x = fst (pipe_run (apply_marks size marks) steps) ->
+  In (m_idx m) (map snd marks) ->
+  acted (admission addr_of s x m) = false.
+Proof.
+  intros addr_of s x m size marks steps Hk Hg Hin. apply ignored_excluded_prop.
+  destruct (kind_of s); try contradiction;
+  rewrite Hg, pipe_run_group; unfold apply_marks; apply marks_exclude; right; exact Hin.
+Qed.
+
+(* soundness of the executable pipeline spec: whatever the state acted on came from a member the
+   marks did not exclude, under the key that holds the index *)
+Lemma pipe_spec_ok_sound : forall q,
+  pipe_well_formed q = true -> pipe_spec_ok q = true ->
+  forall m o sn, In (m, o, sn) (q_msgs q) -> acted o = true ->
+  holds_index (q_ops q) (m_idx m) (tab_addr (q_tab q) (m_key m)) /\
+  m_idx m <> q_self q /\
+  is_operating (pipe_grp q) (m_idx m) = true /\
+  ~ In (m_idx m) (map snd (q_marks q)).
+Proof.
+  intros q Hwf Hs m o sn Hin Ha.
+  assert (Hin' : In (m, o) (r_msgs (pipe_as_run q))).
+  { simpl. apply in_map_iff. exists (m, o, sn). split; [reflexivity|exact Hin]. }
+  destruct (run_spec_ok_sound (pipe_as_run q) Hs m o Hin' Ha) as [H1 [H2 [_ H4]]].
+  unfold pipe_well_formed in Hwf. apply andb_true_iff in Hwf as [Hk _].
+  simpl in *. split; [exact H1|].
+  assert (Hop : is_operating (pipe_grp q) (m_idx m) = true).
+  { unfold excluded_at in H4. simpl in H4. destruct (kind_of (q_step q)); try discriminate;
+    apply negb_false_iff in H4; exact H4. }
+  split; [|split; [exact Hop|]].
+  - intro E. apply H2; [|left; symmetry; exact E].
+    unfold documents_self. destruct (kind_of (q_step q)); try discriminate; reflexivity.
+  - intro Hm. unfold pipe_grp, apply_marks in Hop. rewrite marks_exclude in Hop; [discriminate|right; exact Hm].
+Qed.
+
+(* the hypotheses are satisfiable: disqualified {2} then inactive {5} on six seats; conversion and
+   the operating view leave the group as marked; member 5 is excluded *)
+Example ex_pipeline :
+  let g := apply_marks 6 [(true, 2); (false, 5)] in
+  g = {| g_size := 6; g_ia := [5]; g_dq := [2] |} /\
+  pipe_run g [PConvert; POperating; PSign] = (g, [[2; 5]; [1; 3; 4; 6]; []]) /\
+  is_operating g 5 = false /\ is_operating g 3 = true.
+Proof. vm_compute. repeat split. Qed.
